@@ -50,6 +50,11 @@ pub struct FPlan {
     pub interim: Vec<u16>,
     pub resp_headers: Vec<(String, String)>,
     pub resp_body: RespBody,
+    /// framing headers on a response that has no body by definition: 0 = the usual ones
+    /// (Content-Length on HEAD, none otherwise), 1 = Transfer-Encoding: chunked, 2 = the
+    /// Content-Length of the representation (HEAD and 304 only; RFC 7230 3.3.1 / 3.3.2)
+    #[serde(default)]
+    pub bodiless_framing: u8,
     /// the origin closes its side after the response
     pub origin_closes: bool,
     /// segmentation of the origin's bytes
@@ -185,6 +190,7 @@ impl Scenario for Forward {
             interim,
             resp_headers,
             resp_body,
+            bodiless_framing: if bodiless && rng.chance(1, 2) { 1 + rng.below(2) as u8 } else { 0 },
             origin_closes,
             origin_cuts: (0..n_cuts)
                 .map(|_| if n_cuts >= 200 { 1 } else { 1 + rng.usize_below(400) })
@@ -247,8 +253,15 @@ fn origin_response_bytes(p: &FPlan) -> Vec<u8> {
     let body = resp_body_bytes(p);
     match &p.resp_body {
         RespBody::Bodiless => {
-            if p.method == "HEAD" {
-                v.extend_from_slice(b"Content-Length: 1234\r\n");
+            let may_frame = p.method == "HEAD" || p.status == 304;
+            match (p.bodiless_framing, may_frame) {
+                (1, true) => v.extend_from_slice(b"Transfer-Encoding: chunked\r\n"),
+                (2, true) => v.extend_from_slice(b"Content-Length: 77\r\n"),
+                _ => {
+                    if p.method == "HEAD" {
+                        v.extend_from_slice(b"Content-Length: 1234\r\n");
+                    }
+                }
             }
             v.extend_from_slice(b"\r\n");
         }
